@@ -49,6 +49,19 @@ CLAIMS = {
         note="Trusted: Lean kernel/Mathlib/standard axioms; the Glucose SAT solver for UNSAT verdicts and for enumerating all models (cross-checked by exhaustive "
              "backtracking up to a node budget, else by a second solver); pysat's CardEnc output is recorded rather than modelled; harness.",
         ref="§7 C04"),
+    "C14": dict(
+        technique="Lean 4 proof (Prim loop invariant for every candidate order; tree grown by leaf attachment; last-differing-bit argument for sector injectivity) + strict correspondence with recorded argsort",
+        text="Kernel-checked theorems about the executable model of plaquette_spanning_tree / n_to_ujk_flipped for every plaquette system satisfying the "
+             "C01/C02 table properties (proved for the model's plaquettes), every candidate order (both values of shortest_edges_only), every F and every base "
+             "bond configuration: chosen edges and plaquettes form a tree grown from plaquette 0 (each edge two-sided, joins a new plaquette to an included one; "
+             "edges and plaquettes pairwise different; all linked to plaquette 0); boundary array = edges with exactly one included side; on a connected plaquette "
+             "graph no iteration fails, so F-1 edges and all F plaquettes; digits of n injective below 2^(F-1); bonds off the tree untouched; different n give "
+             "different flux sectors. Model run with the implementation's recorded argsort results must reproduce edges_in exactly; every flipped configuration and "
+             "its fluxes are compared; the statement (incl. parity class coverage on closed lattices by counting) is evaluated on the implementation.",
+        note="Trusted: Lean kernel/Mathlib/standard axioms; harness; numpy argsort/unique (recorded resp. modelled by an insertion sort). 'Image = parity class' on closed "
+             "lattices is decided by counting on the implementation (2^(F-1) distinct sectors, each with the parity of C05.global_product), the surjectivity "
+             "theorem itself is not yet proved in Lean. 'Does not modify its input' is checked dynamically here and statically under C15.",
+        ref="§7 C14"),
 }
 
 PENDING_REASON = "check not built yet in this revision (work in progress; see DESIGN.md §7 for the planned Lean model and tie)"
